@@ -139,11 +139,12 @@ class Models:
     def __init__(self):
         self.ext_call = {}
         self.methods = {}
-        from . import models_np, models_py, models_io, models_xr
+        from . import models_np, models_py, models_io, models_xr, models_pp
         models_py.register(self)
         models_np.register(self)
         models_io.register(self)
         models_xr.register(self)
+        models_pp.register(self)
 
     # -------------------------------------------------------------------------------------------
     # imports
@@ -157,6 +158,9 @@ class Models:
             return ExtRef('collections.OrderedDict')
         if modname == '__future__':
             return None
+        from . import models_pp
+        if f'{modname}.{name}' in models_pp.CONSTS:
+            return models_pp.CONSTS[f'{modname}.{name}']
         if (modname, name) == ('xarray.core.indexing', 'remap_label_indexers'):
             raise AbsRaise(ExcVal('ImportError', ('remap_label_indexers was removed from xarray',)), node)
         return ExtRef(f'{modname}.{name}')
@@ -291,7 +295,8 @@ class Models:
         return PyCallable(lambda it, a, k, n: None, 'noop')
 
     def is_dict_subclass(self, cls):
-        return any(isinstance(b, ExtRef) and b.path in ('builtins.dict', 'builtins.object') for b in cls.bases) or not cls.bases
+        return any((isinstance(b, ExtRef) and b.path in ('builtins.dict', 'collections.OrderedDict')) or
+                   (isinstance(b, ClassVal) and self.is_dict_subclass(b)) for b in cls.bases)
 
 
 class PyCallable:
